@@ -33,7 +33,7 @@ def run(R):
     R.drive("c09", "out=" + tr1, "cases=" + cf, timeout=3000)
     R.validate("Trace_J2P", tr1, reset_events=("PSchema",), timeout=3000)
     tr2 = os.path.join(R.scratch, "c09-b.ndjson")
-    R.drive("c09", "out=" + tr2, "n=%d" % (300 if q else 25000), "seed=%d" % R.seed, timeout=3000)
+    R.drive("c09", "out=" + tr2, "n=%d" % (300 if q else 6000), "seed=%d" % R.seed, timeout=3000)
     R.validate("Trace_J2P", tr2, reset_events=("PSchema",), timeout=3000)
     R.extra_cov["tlc_cases_replayed"] = len(cases)
     return vlib.finish(R, "model_checking", RULE, ASSUME)
